@@ -52,10 +52,20 @@ def leaves(a, acc):
     return acc
 
 
-def gen_rhs(rng, avail, depth):
+def gen_rhs(rng, avail, depth, typed=False):
     """random expression whose identifiers are quantities from `avail` (one in six is a bare identifier)"""
     if avail and rng.random() < 0.17:
         return ('q', rng.choice(avail))
+    if typed:
+        def subt(a):
+            if a is None:
+                return None
+            if a[0] == 'ci':
+                return ('q', rng.choice(avail)) if avail else ('cn', rng.choice(['2', '3', '0.5']))
+            if a[0] == 'cn':
+                return a
+            return (a[0], subt(a[1]), subt(a[2]))
+        return subt(X.gen_typed(rng, depth))
     def sub(a):
         if a is None:
             return None
@@ -67,7 +77,7 @@ def gen_rhs(rng, avail, depth):
     return sub(X.gen(rng, depth, SAFE_KINDS))
 
 
-def gen_system(rng, ncomp=3, nq=8, depth=3, ode=True):
+def gen_system(rng, ncomp=3, nq=8, depth=3, ode=True, typed=False):
     qs = []
     if ode:
         v = Quantity(0, 'voi', 'time'); v.home = rng.randrange(ncomp); qs.append(v)
@@ -87,16 +97,16 @@ def gen_system(rng, ncomp=3, nq=8, depth=3, ode=True):
             if cands and rng.random() < 0.3:
                 q.init_from = rng.choice(cands); q.init = None
         elif q.kind == 'cconst':
-            q.rhs = gen_rhs(rng, consts, rng.randint(1, depth))
+            q.rhs = gen_rhs(rng, consts, rng.randint(1, depth), typed)
         elif q.kind == 'state':
             q.init = rng.choice(['1', '2', '0.5', '1.5', '-1', '3', '0.1'])
             if consts and rng.random() < 0.25:
                 cands = [c for c in consts if qs[c].kind == 'const' and qs[c].dim == q.dim]
                 if cands:
                     q.init_from = rng.choice(cands); q.init = None
-            q.rhs = gen_rhs(rng, consts + dyn + [p.idx for p in qs if p.kind == 'alg'], rng.randint(1, depth))
+            q.rhs = gen_rhs(rng, consts + dyn + [p.idx for p in qs if p.kind == 'alg'], rng.randint(1, depth), typed)
         elif q.kind == 'alg':
-            q.rhs = gen_rhs(rng, consts + dyn, rng.randint(1, depth))
+            q.rhs = gen_rhs(rng, consts + dyn, rng.randint(1, depth), typed)
     # an algebraic quantity used by an earlier algebraic one through a state equation is fine; but algebraic ones may only read earlier ones
     # members
     for q in qs:
@@ -111,7 +121,7 @@ def gen_system(rng, ncomp=3, nq=8, depth=3, ode=True):
             p = qs[k]
             if q.home not in p.members:
                 p.members[q.home] = ('v%d_c%d' % (p.idx, q.home), rng.choice(BY_DIM[p.dim]))
-    return dict(ncomp=ncomp, qs=qs, ode=ode)
+    return dict(ncomp=ncomp, qs=qs, ode=ode, typed=typed)
 
 
 def scale(units):
@@ -173,7 +183,18 @@ def mathml(a, sysd, comp, rng):
     return go(a)
 
 
-def to_cellml(sysd, rng):
+NLA_BLOCK = '''  <component name="cnla">
+    <variable name="nx" units="dimensionless" initial_value="1"/>
+    <variable name="ny" units="dimensionless" initial_value="1"/>
+    <variable name="na" units="dimensionless" initial_value="%s"/>
+    <math xmlns="http://www.w3.org/1998/Math/MathML">
+      <apply><eq/><apply><plus/><ci>nx</ci><apply><%s/><ci>ny</ci></apply></apply><ci>na</ci></apply>
+      <apply><eq/><apply><minus/><ci>nx</ci><ci>ny</ci></apply><cn cellml:units="dimensionless">1</cn></apply>
+    </math>
+  </component>'''
+
+
+def to_cellml(sysd, rng, nla=False):
     qs = sysd['qs']
     out = ['<?xml version="1.0" encoding="UTF-8"?>', '<model xmlns="http://www.cellml.org/cellml/2.0#" xmlns:cellml="http://www.cellml.org/cellml/2.0#" name="m">']
     for n, (d, s, x) in UNITS.items():
@@ -202,6 +223,8 @@ def to_cellml(sysd, rng):
             rng.shuffle(eqs)
             out.append('    <math xmlns="http://www.w3.org/1998/Math/MathML">' + ''.join(eqs) + '</math>')
         out.append('  </component>')
+    if nla:
+        out.append(NLA_BLOCK % (rng.choice(['3', '5', '2.5']), rng.choice(['sec', 'abs', 'csch', 'exp', 'arccot'])))
     pairs = {}
     for q in qs:
         for c in q.members:
